@@ -30,7 +30,9 @@ REQUIRED_THEOREMS = ["faces_in_bijection", "ref_vertex_face_by_face", "ref_verte
                      # round 7: __init__ (self.singularities / self.singu_set) and what the pruning reads
                      "init_singularities_source", "prune_reads_singularities_source",
                      # round 8: _build_singularity_spanning_tree_no_features
-                     "spanning_tree_kruskal_source", "all_candidates_offered_source", "spanning_forest_source", "flag_loop_source"]
+                     "spanning_tree_kruskal_source", "all_candidates_offered_source", "spanning_forest_source", "flag_loop_source",
+                     # round 9
+                     "spanning_forest_with_features_source"]
 TRUSTED = [
     "Lean 4.33.0 kernel; axioms ⊆ {propext, Classical.choice, Quot.sound}",
     "hand-written model Mouette/Model/Cutting.lean (_build_cut_edges_tree, _prune_edge_tree, _build_mesh_with_cuts over the C20 "
@@ -576,7 +578,7 @@ SOURCE_MAP = {
     _CUT + "_run_no_features": "translated",
     _CUT + "_build_singularity_spanning_tree_no_features": "translated: whole body matched against the shape of Generated/C16Span.lean (BORDER node, candidate keys, lengths of EVERY key, Kruskal loop bridged to the C10 loop, flag loop); shortest_path / shortest_path_to_border (C09) and the sort are parameters",
     _CUT + "_build_singularity_spanning_tree_no_features.compute_path_length": "oracle-only",   # its body is part of the matched shape; its value is the parameter `len`
-    _CUT + "_build_singularity_spanning_tree_with_features": "oracle-only",
+    _CUT + "_build_singularity_spanning_tree_with_features": "translated: whole body matched against the shape of Generated/C16SpanF.lean; the breadth-first forest on the feature graph is modelled and proved a forest (spanning_forest_with_features_source); shortest_path_to_vertex_set (C09) is a parameter",
     _CUT + "_build_feature_regions": "oracle-only",
     _CUT + "_build_dual_tree_no_features": "translated",
     _CUT + "_build_dual_tree_no_features.face_distance": "oracle-only",   # its body is checked by the translator (distance of two barycenters); its value is the parameter `fd`
